@@ -52,7 +52,7 @@ FORMULAS_AB = [
     "pi * {a} + tan({b} / 10.0)", "({a} + {b}) / 2.0", "{a} / {b}", "x * {a} + (1.0 - x) * {b}", "min({a}, 0.5) + max({b}, 0.25)",
     ".-{a} * 2.0", "!gt({a}, 0.5) + 0.0", "gt({a}, 0.2) and lt({b}, 0.8)", "gt({a}, 0.7) or gt({b}, 0.7)",
 ]
-FORMULAS_X = ["x * 0.5", "1.0 - x", "gt(x, 0.5)", "exp(.-((x - 0.5) * (x - 0.5) * 8.0))", "abs(sin(x * 3.0))", "x ^ 2", "min(x, 0.5)",
+FORMULAS_X = ["x", "x", "x", "x * 0.5", "1.0 - x", "gt(x, 0.5)", "exp(.-((x - 0.5) * (x - 0.5) * 8.0))", "abs(sin(x * 3.0))", "x ^ 2", "min(x, 0.5)",
               "x / (1.0 + abs(x))", "k * x"]
 FORMULAS_OUT = ["{o} * 0.5 + {a}", "{a} - {o}"]
 
@@ -135,7 +135,10 @@ def gen_term_args(rng, cls: str, lo: float, hi: float) -> dict[str, Any]:
 def gen_function(rng, names_in: list[str], names_out: list[str], over_x: bool) -> dict[str, Any]:
     if over_x:
         f = C(rng, FORMULAS_X)
-        return {"formula": f, "variables": {"k": fenc(C(rng, [0.5, 2.0]))} if "k *" in f else {}}
+        a = {"formula": f, "variables": {"k": fenc(C(rng, [0.5, 2.0]))} if "k *" in f else {}}
+        if a["variables"] and rng.random() < 0.4:
+            a["array_variables"] = True  # Scalar = float | ndarray: the values may be (0-d) arrays, i.e. mutable objects
+        return a
     if names_out and rng.random() < 0.5:
         f = C(rng, FORMULAS_OUT).format(a=C(rng, names_in), o=C(rng, names_out))
         return {"formula": f, "variables": {}}
@@ -282,7 +285,7 @@ def gen_spec(rng, **knobs) -> dict:
             ant = gen_ast(rng, ant_vars, rng.randint(0, k["depth"]), k["max_hedges"])
             ncon = 1 if rng.random() < 0.7 else min(2, n_out + 1)
             con = [gen_prop(rng, C(rng, outputs), 1 if rng.random() < 0.3 else 0, False) for _ in range(ncon)]
-            rules.append({"ant": ant, "con": con, "weight": None if rng.random() < 0.7 else fenc(C(rng, [0.5, 0.25, 0.75, 0.1, 1.5])),
+            rules.append({"ant": ant, "con": con, "weight": None if rng.random() < 0.7 else fenc(C(rng, [0.5, 0.25, 0.75, 0.1, 1.5, 0.0, 1.0])),
                           "enabled": rng.random() >= k["disabled"]})
         blocks.append({"name": f"b{b}", "enabled": rng.random() >= k["disabled"] / 2, "conjunction": C(rng, tn),
                        "disjunction": C(rng, sn), "implication": C(rng, tn), "activation": act, "rules": rules})
@@ -354,7 +357,8 @@ def build_term(t: dict):
     cls = getattr(fl, t["cls"])
     a = t["args"]
     if t["cls"] == "Function":
-        return cls(t["name"], a["formula"], variables={k: fdec(v) for k, v in a.get("variables", {}).items()})
+        conv = (lambda v: np.array(fdec(v))) if a.get("array_variables") else fdec
+        return cls(t["name"], a["formula"], variables={k: conv(v) for k, v in a.get("variables", {}).items()})
     if t["cls"] == "Linear":
         return cls(t["name"], [fdec(c) for c in a["coefficients"]])
     if t["cls"] == "Discrete":
@@ -651,6 +655,8 @@ def _term_spec(t) -> dict:
     cls = type(t).__name__
     if cls == "Function":
         args: dict[str, Any] = {"formula": t.formula, "variables": {k: fenc(v) for k, v in t.variables.items()}}
+        if any(isinstance(v, np.ndarray) for v in t.variables.values()):
+            args["array_variables"] = True
     elif cls == "Linear":
         args = {"coefficients": [fenc(c) for c in t.coefficients]}
     elif cls == "Discrete":
